@@ -1,5 +1,5 @@
 """C06: tasks — decided on the L1 machine (theorem Ivy.Props.C06.monitor_accepts) + T-replay correspondence."""
-from . import l1
+from . import l1, loopgen
 PROP = "C06"
 LEANCHECK_MODULES = ["Ivy.L1.Machine", "Ivy.L1.Exec", "Ivy.Mon.C06", "Ivy.L1.ProofsC06", "Ivy.Props.C06"]
 FAMILIES = ["tasks", "mix"]
@@ -21,12 +21,43 @@ def nontrivial(log):
     return False
 
 
+# "do not prevent descriptors, timers and events from being serviced": the servicing guarantees themselves are the statements of
+# C02 (readiness not lost), C04 (timers never late) and C07's progress rules; their monitors run on every log of this check too
+MONS = ["C06", "C04", "C02", "C03"]
+STARVE_RULE = ("; plus the ENUMERATED family 'starve' (every run): a self-re-registering task / a ring of two or three tasks keeps a deferred task "
+               "pending in every round for 14-30 rounds while a timer becomes due, a descriptor becomes readable and a cross-thread event is "
+               "posted during the busy period, on all four methods, with and without a timer descriptor; the monitors of C04, C02 and C03 "
+               "(timers never late, readiness not lost, handlers only for reported conditions) judge the same logs")
+
+
+def starve_cases(seed):
+    import random
+    rng = random.Random(seed * 6007 + 6)
+    cases = []
+    for m in loopgen.METHODS:
+        for ring in (1, 2, 3):
+            for cfgx in ("", " notimerfd", " nopwait2"):
+                rounds = rng.choice([14, 20, 30])
+                due = rng.choice([3000, 5000, 9000])
+                L = ([f"exclude {m}"] if m else []) + [f"cfg waitlimit={rounds + 12} cblimit=400" + cfgx,
+                     "obj fd f0 sock", "obj timer t0", "obj timer t1", "obj event e0"] + [f"obj task k{i + 1}" for i in range(ring)]
+                for i in range(ring):
+                    nxt = (i + 1) % ring + 1
+                    L.append(f"on k{i + 1} * : ?kreg k{nxt}" if ring > 1 else f"on k1 * : ?kreg k1")
+                L += ["on f0.in * : rd f0", f"on t1 1 : " + " ; ".join(f"?kunreg k{i + 1}" for i in range(ring)) + " ; ?unreg f0 ; ?evunreg e0",
+                      f"at {rng.randrange(2, 6)} : wr f0 2", f"at {rng.randrange(2, 8)} : xpost e0",
+                      f"do reg f0 100 ; evreg e0 ; trel t0 {due} ; trel t1 {rounds * 1000} ; kreg k1", "main"]
+                cases.append((f"starve-{loopgen.METHOD_NAME[m]}-ring{ring}{cfgx.strip() and '-' + cfgx.strip()}", L))
+    return cases
+
+
 def run(tier, seed, proof):
-    return l1.run_property(PROP, tier, seed, proof, FAMILIES, ["C06"], [], nontrivial, RULE)
+    return l1.run_property(PROP, tier, seed, proof, FAMILIES, MONS, [], nontrivial, RULE + STARVE_RULE,
+                           extra_cases=lambda tier, seed: starve_cases(seed))
 
 
 def search(tier, seed, proof):
-    return l1.search_property(PROP, tier, seed, ["tasks"], ["C06"], [])
+    return l1.search_property(PROP, tier, seed, ["tasks"], MONS, [])
 
 
 replay = l1.replay
